@@ -215,8 +215,8 @@ func leakSites(msg string) []string {
 // Scenario runs body inside a fresh synctest bubble with a fresh simulation and records the result.
 // body must call sc.S.Stop() (via sc.Finish) before returning; Scenario does it if body forgot.
 func (u *Unit) Scenario(name string, spec any, opts Opts, body func(sc *Scen)) *ScenResult {
-	if u.Job.Only != "" && u.Job.Only != name {
-		return nil
+	if u.Job.Only != "" && u.Job.Only != name && !strings.HasSuffix(name, "-baseline") {
+		return nil // (a unit's fault-free baseline always runs: its fault list is derived from it)
 	}
 	for _, sk := range u.Job.Skip {
 		if sk == name {
